@@ -167,19 +167,21 @@ def run_case(case, rec):
     # block-local AO buffers across blocks in the RKS NLDF force driver went unnoticed
     from ciderpress.pyscf import rks_grad, uks_grad
     gmod = rks_grad if cfg["spin"] == "rks" else uks_grad
-    gfun = gmod.get_vxc_full_response if cfg["gr"] else gmod.get_vxc
-    try:
-        e_big, v_big = gfun(ni, ks.mol, ks.grids, ks.xc, dm, max_memory=2000)
-        e_small, v_small = gfun(ni, ks.mol, ks.grids, ks.xc, dm, max_memory=1)
+    for gname in ("get_vxc", "get_vxc_full_response"):      # both drivers, whatever mode the SCF comparison below uses
+        gfun = getattr(gmod, gname)
+        btag = "%s,%s" % (mechtag.rsplit(",", 1)[0], "gridresp" if gname.endswith("response") else "fixedgrid")
+        try:
+            e_big, v_big = gfun(ni, ks.mol, ks.grids, ks.xc, dm, max_memory=2000)
+            e_small, v_small = gfun(ni, ks.mol, ks.grids, ks.xc, dm, max_memory=1)
+        except NotImplementedError:
+            continue
         vsc = max(float(np.max(np.abs(v_big))), 1e-300)
-        rec.check("force_matrix_block_independence", float(np.max(np.abs(np.asarray(v_big) - np.asarray(v_small)))) / vsc, 1e-9,
-                  mechanism="gradients:blocking-dependence[%s]" % mechtag, detail={"ngrids": int(ks.grids.weights.size)})
+        rec.check("force_matrix_block_independence[%s]" % gname, float(np.max(np.abs(np.asarray(v_big) - np.asarray(v_small)))) / vsc, 1e-9,
+                  mechanism="gradients:blocking-dependence[%s]" % btag, detail={"ngrids": int(ks.grids.weights.size)})
         if e_big is not None and e_small is not None:
             esc = max(float(np.max(np.abs(e_big))), 1e-3 * vsc)
             rec.check("grid_response_block_independence", float(np.max(np.abs(np.asarray(e_big) - np.asarray(e_small)))) / esc, 1e-9,
-                      mechanism="gradients:blocking-dependence[excsum,%s]" % mechtag)
-    except NotImplementedError:
-        pass
+                      mechanism="gradients:blocking-dependence[excsum,%s]" % btag)
     coords = mol.atom_coords()
     comps = [(a, x) for a in range(mol.natm) for x in range(3)]
     order = rng.permutation(len(comps))
